@@ -180,7 +180,7 @@ def rand_step(rng, pool):
 def rand_case(rng, steps=1):
     pool = list(range(rng.choice([2, 3, 4, 4, 5])))
     seq = [rand_step(rng, pool) for _ in range(steps)]
-    return {"family": "rand" if steps == 1 else "seq", "kind": "mixed", "labels": rng.choice(Labels.STYLES),
+    return {"family": "rand" if steps == 1 else "seq", "kind": "mixed", "labels": rng.choice(Labels.STYLES_X),
             "seq": seq, "n": case_n(seq)}
 
 def gen_pool(rng, labels):
@@ -223,7 +223,7 @@ def obj_case(rng):
     labels = list(range(rng.choice([2, 3, 3, 4])))
     pool = gen_pool(rng, labels)
     seq = [obj_step(rng, labels, len(pool)) for _ in range(rng.choice([2, 3, 3, 4]))]
-    return {"family": "seq-obj", "kind": "objects", "labels": rng.choice(Labels.STYLES), "pool": pool, "seq": seq,
+    return {"family": "seq-obj", "kind": "objects", "labels": rng.choice(Labels.STYLES_X), "pool": pool, "seq": seq,
             "n": case_n(seq, pool)}
 
 RELS = ["eq", "ne", "lt", "le", "gt", "ge"]
@@ -264,7 +264,7 @@ def cmp_case(rng):
         seq.append(cmp_step(rng, labels))
     if all(st.get("cmp") for st in seq):
         seq.insert(0, rand_step(rng, labels))
-    return {"family": "seq-cmp", "kind": "cmp", "labels": rng.choice(Labels.STYLES), "seq": seq, "n": case_n(seq)}
+    return {"family": "seq-cmp", "kind": "cmp", "labels": rng.choice(Labels.STYLES_X), "seq": seq, "n": case_n(seq)}
 
 def hist_tmpl_cases():
     """fixed histories: an operand object used by AND/NAND and again afterwards; a logical constraint followed by a
